@@ -1010,7 +1010,7 @@ use super::source::OperatorSource;
 ///
 /// This bridges the pull-based planner output with push-based execution:
 /// 1. Wraps the pull operator as an `OperatorSource`
-/// 2. Uses `CardinalityTrackingSink` to track output cardinality
+/// 2. Tracks the output cardinality under the checkpoint id `output`
 /// 3. Provides adaptive feedback through `AdaptiveContext`
 ///
 /// # Example
@@ -1065,11 +1065,10 @@ impl AdaptivePipelineExecutor {
     ///
     /// Returns an error if execution fails.
     pub fn execute(mut self) -> Result<(Vec<DataChunk>, AdaptiveSummary), OperatorError> {
-        let mut sink = CardinalityTrackingSink::new(
-            Box::new(CollectorSink::new()),
-            "output",
-            self.context.clone(),
-        );
+        // The collector is driven directly (not boxed into a tracking sink) so that
+        // the collected chunks can be handed back; the output cardinality is
+        // reported under the same checkpoint id a `CardinalityTrackingSink` would use.
+        let mut sink = CollectorSink::new();
 
         let chunk_size = DEFAULT_CHUNK_SIZE;
         let mut total_rows: u64 = 0;
@@ -1080,7 +1079,7 @@ impl AdaptivePipelineExecutor {
             let chunk_rows = chunk.len() as u64;
             total_rows += chunk_rows;
 
-            // Push to tracking sink
+            // Push to the collecting sink
             let continue_exec = sink.consume(chunk)?;
             if !continue_exec {
                 break;
@@ -1096,20 +1095,17 @@ impl AdaptivePipelineExecutor {
             }
         }
 
-        // Finalize sink
+        // Finalize sink and report the final output cardinality
         sink.finalize()?;
+        self.context.record_actual("output", total_rows);
 
-        // Extract results from the inner sink
         let summary = self
             .context
             .snapshot()
             .map(|ctx| ctx.summary())
             .unwrap_or_default();
 
-        // Get collected chunks from the inner CollectorSink
-        // Note: We need to extract chunks from the wrapped sink
-        // For now, we'll return the summary and the caller can collect separately
-        Ok((Vec::new(), summary))
+        Ok((sink.into_chunks(), summary))
     }
 
     /// Executes and collects all results into DataChunks.
